@@ -151,6 +151,16 @@ def sweep(ck):
         what, _ = multibin_case(P, L, b0, ph, [sg * o for o in offs for sg in (-1, 1)], ck.rng.choice(["name", "numpy"])); evals += 1
         if what:
             ck.violation(what, dict(psll=P, L=L, bin=b0, phase=ph, path="compute"), tag="sidelobe-multibin")
+    # fractional requests near the low end, first side lobes scanned finely (the bound has least slack there)
+    from speckit.utils import kaiser_alpha as _ka
+    for P in (40.99, 45.5, 49.99):
+        lobe = math.sqrt(1 + float(_ka(P)) ** 2)
+        for L, b0 in ((64, 20.3), (100, 31.0)):
+            for off in np.arange(lobe * 1.0001, lobe + 3.0, 0.05):
+                what, sup, _ = sidelobe_case(P, L, b0, 0.7, float(off), "name"); evals += 1
+                worst = min(worst, sup - (P - 1))
+                if what:
+                    ck.violation(what, dict(psll=P, L=L, bin=b0, offset=float(off), phase=0.7, win="name"), tag="sidelobe"); break
     ck.cov["sidelobe_evaluations"] = evals
     ck.cov["worst_margin_dB_over_P_minus_1"] = worst
     ck.cov["worst_margin_dB_real_sinusoid_both_lines"] = worst_real
